@@ -72,7 +72,7 @@ let () =
       let f = split_tabs line in
       let id = f.(0) and cls = f.(1) in
       let flags = String.split_on_char ',' f.(2) in
-      let lattice = List.mem "lattice" flags and sliver = List.mem "sliver" flags in
+      let lattice = List.mem "lattice" flags and sliver = List.mem "sliver" flags and thorough = List.mem "thorough" flags in
       (* sliver: valid, but without clearance; only the clauses that need none are judged *)
       let valid = List.mem "valid" flags && not sliver in
       incr cases;
@@ -119,7 +119,7 @@ let () =
             if not (timed "spec_probes" (fun () -> probes_on_boundary g gb)) then failc "SPEC" "boundary_point_not_on_boundary" (Printf.sprintf "boundary=%s input=%s" f.(4) gd);
             if int_of_nat (n_segments g) <= 24 then begin
               count "spec_boundary_exact_evaluated";
-              if not (timed "spec_exact" (fun () -> boundary_exact g gb)) then failc "SPEC" "boundary_not_exactly_the_boundary_set" (Printf.sprintf "boundary=%s input=%s" f.(4) gd)
+              if not (timed "spec_exact" (fun () -> boundary_exact_ok g gb)) then failc "SPEC" "boundary_not_exactly_the_boundary_set" (Printf.sprintf "boundary=%s input=%s" f.(4) gd)
             end else count "spec_boundary_exact_skipped_large"
           end;
           count "spec_boundary_evaluated"
@@ -187,6 +187,14 @@ let () =
                     if row_regular y then begin
                       if row_hyps y then count "interior_theorem_hypotheses_hold"
                       else failc "CORR" (nm "interior_theorem_hypotheses_fail_on_valid_polygon") (d ());
+                      (* the executable nesting clauses of pos_areal_interior_exec (hole_inside, not_nested,
+                         shell_outside at every witness of the exact arrangement) *)
+                      let holes = (match y with MkPoly (_, rs) -> List.length rs - 1) in
+                      if holes > 0 && (not thorough) && int_of_nat (n_segments (GPoly y)) > 11 then
+                        count "interior_theorem_nest_okb_skipped_large_in_quick_tier"
+                      else if timed "nest_okb" (fun () -> nest_okb y) then count "interior_theorem_nest_okb_holds"
+                      else if lattice then failc "CORR" (nm "interior_theorem_nest_okb_fails_on_valid_polygon") (d ())
+                      else count "float_polygon_nesting_exactly_invalid_excluded";
                       (match x, point_xy nd.gp with
                        | GPoly _, Some p ->
                          if nesting_atb y p then count "interior_theorem_nesting_holds_at_point"
